@@ -19,6 +19,8 @@ KF = {
                 "not bound to challenge, global-context string or credential id",
     "KF-C18-4": "web3id v0 Presentation::verify: the metadata of an ACCOUNT credential proof (issuer, created, network, cred_id) "
                 "is not absorbed in the transcript and not signed: altering it alone (public commitments unchanged) still verifies",
+    "KF-C18-5": "web3id v0: `network` and credential type `ty` of a WEB3 credential are asserted by the holder only (linking signature), "
+                "not covered by the issuer's signature: a holder can present its credential under another network / type set from the start",
 }
 
 
@@ -394,6 +396,76 @@ def judge_frames(acc, rows, terms):
             acc.viol({"case": r, "model_bytes": bytes(b0).hex()}, "RandomOracle framing differs from the model")
 
 
+# ------------------------------------------------------------------------------- request-anchor claim matching
+def coq_req(rq):
+    return "(ReqClaims [%s] [%s] [%s])" % (";".join(coq_stmt(x) for x in rq["ss"]),
+                                          ";".join("Did %d %d" % (i, n) for i, n in rq["issuers"]),
+                                          ";".join("KAccount" if k == "account" else "KIdentity" for k in rq["source"]))
+
+
+def coq_pres(pc):
+    return "(PresClaims %s %d %d [%s])" % ("KAccount" if pc["kind"] == "account" else "KIdentity", pc["issuer"], pc["net"],
+                                         ";".join(coq_stmt(x) for x in pc["ss"]))
+
+
+MATCH_RESULT = {"MOk": "Verified", "MFailType": "Failed(CredentialType)", "MFailIssuer": "Failed(CredentialIssuer)",
+                "MFailClaims": "Failed(SubjectClaims)"}
+
+
+def check_matches(ctx, acc, batch, rows):
+    ms = [d for d in rows if d["k"] in ("match", "match2")]
+    if not ms:
+        return
+    exprs = []
+    for d in ms:
+        if d["k"] == "match":
+            # a request statement of kind reveal is printed by the harness as the value statement of the presentation
+            rq = dict(d["rq"])
+            rq["ss"] = [({"s": "reveal", "tag": x["tag"]} if x["s"] == "value" else x) for x in rq["ss"]]
+            exprs.append("(claims_match %s %s, issuer_allowed_fieldwise %s %s)" % (coq_req(rq), coq_pres(d["pc"]), coq_req(rq), coq_pres(d["pc"])))
+        else:
+            rqs = []
+            for rq in d["rqs"]:
+                rq = dict(rq)
+                rq["ss"] = [({"s": "reveal", "tag": x["tag"]} if x["s"] == "value" else x) for x in rq["ss"]]
+                rqs.append(coq_req(rq))
+            exprs.append("(claims_list_match [%s] [%s], true)" % (";".join(rqs), ";".join(coq_pres(pc) for pc in d["pcs"])))
+    batch.add(exprs, lambda terms: judge_matches(acc, ms, terms))
+
+
+def judge_matches(acc, ms, terms):
+    for d, (m, fieldwise) in zip(ms, terms):
+        acc.count("anchor-match:%s:%s" % (d["name"], m))
+        acc.case(["match", d["name"], d.get("i")], True)
+        if d["result"] == "PANIC":
+            acc.viol({"case": d}, "verify_presentation_with_request_anchor panicked (%s)" % d["name"])
+        elif MATCH_RESULT[m] != d["result"]:
+            acc.viol({"case": d, "model": m, "issuer_allowed_fieldwise": fieldwise, "theorem": "claims_match_ok_iff / claims_list_match_ok_iff"},
+                     "request-anchor claim matching (%s): implementation %s, model %s" % (d["name"], d["result"], MATCH_RESULT[m]))
+
+
+def check_lies(ctx, acc, rows, kf_ids):
+    for d in rows:
+        if d["k"] != "lie":
+            continue
+        acc.count("lie:%s:%s" % (d["flow"], d["name"]))
+        acc.case(["lie", d["flow"], d["name"], d.get("i")], d["prove"] == "Some")
+        if d["prove"] == "PANIC" or d["verify"] == "PANIC":
+            acc.viol({"case": d}, "%s: prover/verifier panicked on the consistent lie %s" % (d["flow"], d["name"]))
+        elif d["verify"] is True:
+            kf = None
+            if d["flow"] == "v0" and d["name"].startswith("account_meta_"):
+                kf = "KF-C18-4"
+            if d["flow"] == "v0" and d["name"].startswith("web3_holder_asserted_"):
+                kf = "KF-C18-5"
+            if kf and kf in kf_ids:
+                ctx.known_finding(kf, KF[kf])
+                acc.count("known:" + kf)
+            else:
+                acc.viol({"case": d}, "%s: a presentation built from the start with false metadata (%s, %s credential) verifies "
+                         "against the true public data" % (d["flow"], d["name"], d["kind"]))
+
+
 # ------------------------------------------------------------------------------- presentations
 def check_presentations(ctx, acc, batch, rows, kf_ids, flow):
     """rows: {"k":"pres", "flow":..., "creds":[{"ty","al","ss","kind"}...], "prove", "verify", "same_request", "pert":[[name,res]]}"""
@@ -533,6 +605,8 @@ def run(ctx):
         pres = [d for d in prow if d["k"] == "pres"]
         check_presentations(ctx, acc, batch, pres, kf_ids, flow)
         nt = check_ties(ctx, acc, batch, pres)
+        check_matches(ctx, acc, batch, prow)
+        check_lies(ctx, acc, prow, kf_ids)
         for d in prow:
             if d["k"] == "anchor":
                 acc.count("anchor:" + d["name"])
